@@ -404,6 +404,18 @@ def rotation_export_family():
     return out
 
 
+def sqrt_scalar_family():
+    """square-root scalars whose radicand is negative or complex (gates.Sqrt: the amplitude i is Sqrt(-1), 1 + i is
+    Sqrt(2i)): the export must scale by the squared modulus of the root, not by the radicand"""
+    out = []
+    M = {"g": _mg("Measure", n=1, f1=1, f2=0), "off": 0}
+    for re, im, s in ((0, 1, 0), (1, 1, 0), (1, 1, 2), (1, 0, 1)):
+        sc = _mg("scalar", re=re, im=im, s=s, sub="sqrt")
+        out.append({"ty": [], "layers": [{"g": _mg("Ket", bits=[0]), "off": 0}, {"g": _mg("H"), "off": 0}, {"g": sc, "off": 0}, M]})
+        out.append({"ty": [], "layers": [{"g": sc, "off": 0}, {"g": _mg("Ket", bits=[1]), "off": 0}, M, {"g": sc, "off": 1}]})
+    return out
+
+
 def ket_after_hole_family():
     """a qubit is removed (post-selected, discarded or measured destructively), leaving a hole in tket's register; then a
     fresh qubit is prepared to the right of a wire that is still live"""
@@ -593,7 +605,7 @@ def run(tier, seed, t0):
         os.remove(model["dump"])
         n_all = len(circuits)
         sample = circuits if len(circuits) <= c["replay"] else rnd.sample(circuits, c["replay"])
-        sample = sample + dead_wire_family() + postselection_chain_family() + bit_after_copy_family() + overriding_measure_family() + bit_swap_after_postselection_family() + ket_after_hole_family() + daggered_gate_family() + rotation_export_family()
+        sample = sample + dead_wire_family() + postselection_chain_family() + bit_after_copy_family() + overriding_measure_family() + bit_swap_after_postselection_family() + ket_after_hole_family() + daggered_gate_family() + rotation_export_family() + sqrt_scalar_family()
         with mp.get_context("fork").Pool(16) as pool:
             nested = pool.map(work_one, sample, chunksize=4)
         recs = [r for group in nested for r in group]
